@@ -241,4 +241,20 @@ def pseudoLegalCapturesAndChecks (p : Pos) (k ok : Sq) : List Mv :=
     addPawnMovesQN w (m2 &&& wPawnAttacks ok) 8 ++
     addPawnDoubleMovesByMask ((((m2 &&& maskRow6) >>> 8) &&& ~~~occ) &&& wPawnAttacks ok) 16)
 
+/-! ## hypotheses of the `givesCheck` / captures-and-checks theorems as a Boolean -/
+
+/-- `GcWF` (`TexelGenGives.lean`) evaluated by the driver on every tested position: piece codes 0..12, the opponent's king
+    on `ok` and nowhere else, the opponent is not in check, the en-passant square (if any) is empty, on the mover's sixth
+    rank, with the double-stepped pawn behind it -/
+def gcWFb (p : Pos) (ok : Sq) : Bool :=
+  (allSq.all fun s => p.b[s] ≤ 12) &&
+  (p.b[ok] == (if (!p.wtm) then WKING else BKING)) &&
+  (allSq.all fun s => !(p.b[s] == (if (!p.wtm) then WKING else BKING)) || s == ok) &&
+  !Chess.inCheck p.b (!p.wtm) &&
+  (match p.ep with
+   | some e => p.b.getD e.val 0 == 0 &&
+       p.b.getD (if p.wtm then e.val - 8 else e.val + 8) 0 == (if p.wtm then BPAWN else WPAWN) &&
+       e.y == (if p.wtm then 5 else 2)
+   | none => true)
+
 end Chess.Texel
